@@ -17,7 +17,14 @@ func (ts Timestamp) Time() time.Time {
 
 // TimestampFromTime creates a Timestamp from a Time
 func TimestampFromTime(t time.Time) Timestamp {
-	return Timestamp(t.UnixNano())
+	ns := t.UnixNano()
+	if ns < 0 {
+		// Times before the UNIX epoch cannot be represented by the unsigned
+		// Timestamp. Without this, a cutoff like 'now minus 100 years' would
+		// wrap around to a timestamp in the far future.
+		return 0
+	}
+	return Timestamp(ns)
 }
 
 // TxnID is the LMDB transaction ID.
